@@ -19,9 +19,11 @@ def run(ctx):
     PV.a5_application_discipline(ctx, rule_id="E4", only={"ForestRuleExtractor._rules_for_class"})
     E.e5_find_rule_exact(ctx)
     E.e7_minimise_bookkeeping(ctx)
+    E.e8_alias_discipline(ctx)
     ctx.floor("E1", 5)
     ctx.floor("E2", 2)
     ctx.floor("E3", 6)
     ctx.floor("E4", 2)
     ctx.floor("E5", 4)
     ctx.floor("E7", 3)
+    ctx.floor("E8", 1)
